@@ -1,6 +1,6 @@
 # coding: utf-8
 """C12 — strand symmetry: reverse-complemented inputs give the reverse complement."""
-EXTRA_OBLIGATION_FILES = ("Props/C04_src.v", "Props/C03_src.v",)
+EXTRA_OBLIGATION_FILES = ("Props/C12_src.v", "Props/C04_src.v", "Props/C03_src.v",)
 
 from harness import common, gens
 from harness.props import C01, C02, C03
